@@ -12,31 +12,31 @@ import (
 )
 
 func init() {
-	register(&Rule{ID: "E-KINDS", Props: []string{"C14", "C18", "C20", "C05"}, Floor: 5,
+	register(&Rule{ID: "E-KINDS", Props: []string{"C14", "C18", "C20", "C05"}, Floor: 1,
 		Doc: "every type switch of the evaluator that names at least three of the 14 supported numeric kinds names all of them (decimal128.Decimal, json.Number, float32/64, int8..int64, int, uint8..uint64, uint); where every numeric clause of a switch is a constant return, all of them return the same constants",
 		Run: ruleEKinds})
-	register(&Rule{ID: "E-TODECIMAL-TABLE", Props: []string{"C05", "C14"}, Floor: 14,
+	register(&Rule{ID: "E-TODECIMAL-TABLE", Props: []string{"C05", "C14"}, Floor: 4,
 		Doc: "toDecimal converts each numeric kind with the value-preserving constructor of that kind and nothing else: Decimal unchanged, json.Number through decimal128.Parse of its full text, floats through FromFloat32/64, signed integers through FromInt32/64, unsigned through FromUint32/64",
 		Run: ruleEToDecimalTable})
-	register(&Rule{ID: "E-FLOAT-ORIGIN", Props: []string{"C05", "C14", "C02", "C13", "C20"}, Floor: 5,
+	register(&Rule{ID: "E-FLOAT-ORIGIN", Props: []string{"C05", "C14", "C02", "C13", "C20"}, Floor: 3,
 		Doc: "no numeric value is routed through binary floating point or machine integers unless it arrived that way: the evaluator never calls json.Number.Float64/Int64, strconv.Parse*/Atoi, Decimal.Float*, math/big; integer-to-float conversions do not occur; float-to-int conversions occur only in toInt; decimal128.FromFloat* is applied only to float-kind type-switch bindings; Decimal.Int64 is used only by the integer-argument coercion",
 		Run: ruleEFloatOrigin})
-	register(&Rule{ID: "E-INFNAN", Props: []string{"C05", "C14", "C18"}, Floor: 5,
+	register(&Rule{ID: "E-INFNAN", Props: []string{"C05", "C14", "C18"}, Floor: 4,
 		Doc: "every result value of the evaluator that is produced by decimal Add/Sub/Mul/Quo/QuoRem/Pow or by float + - * /, math.Mod or math.Floor of such is returned only under the false edges of IsInf and IsNaN tests on that value (whose true edges return ErrInfinity / ErrNotANumber)",
 		Run: ruleEInfNaN})
-	register(&Rule{ID: "E-ROUNDING-AGREE", Props: []string{"C14"}, Floor: 3,
+	register(&Rule{ID: "E-ROUNDING-AGREE", Props: []string{"C14"}, Floor: 1,
 		Doc: "in every operator with a float fast path next to a decimal path, the rounding primitives of the two paths belong to the same class (math.Floor/decimal128.Floor = floor; math.Trunc/math.Mod/QuoRem/decimal128.Trunc = truncate; Ceil = ceiling)",
 		Run: ruleERoundingAgree})
-	register(&Rule{ID: "E-OPCHAIN", Props: []string{"C05", "C10", "C01"}, Floor: 10,
+	register(&Rule{ID: "E-OPCHAIN", Props: []string{"C05", "C10", "C01"}, Floor: 3,
 		Doc: "each arithmetic and comparison helper uses the decimal128 primitive and the float operator the specification names for it, with the operands in source order (add: Add/+; subtract: Sub/-; multiply: Mul/*; divide: Quo//; integerDivide: QuoRem quotient; modulo: QuoRem remainder/math.Mod; less..greaterOrEqual: Cmp().Less()..)",
 		Run: ruleEOpChain})
 	register(&Rule{ID: "E-DECIMAL-EQ", Props: []string{"C05", "C20", "C14", "C03", "C01"}, Floor: 1,
 		Doc: "decimal128.Decimal values are never compared with == or != (struct equality distinguishes 1.0 from 1 and 0.30 from 0.3) nor used as map keys; equality goes through Equal/Cmp/Compare",
 		Run: ruleEDecimalEq})
-	register(&Rule{ID: "E-CONV-LOSSLESS", Props: []string{"C14", "C05", "C03"}, Floor: 10,
+	register(&Rule{ID: "E-CONV-LOSSLESS", Props: []string{"C14", "C05", "C03"}, Floor: 9,
 		Doc: "every integer-to-integer conversion in the evaluator and parser keeps the value: the target type contains the source type's range, or the operand is range-checked by a dominating comparison with a constant",
 		Run: ruleEConvLossless})
-	register(&Rule{ID: "E-TOINT-NO-RESULT", Props: []string{"C14", "C05", "C02"}, Floor: 10,
+	register(&Rule{ID: "E-TOINT-NO-RESULT", Props: []string{"C14", "C05", "C02"}, Floor: 4,
 		Doc: "the machine integer produced by the integer-argument coercion (toInt) is used only as a count, width or offset: it never flows into a value the evaluator returns",
 		Run: ruleEToIntNoResult})
 }
